@@ -322,6 +322,15 @@ def echo_model(rng, key_cls):
     ]
     for dec, inp, _t, _x, _f, _s in TEMPORALS:
         parts.append(decision(dec, inp, [inp]))
+    # structured typed inputs (TCK list and components DTOs on the way IN): a collection of strings and a component type
+    parts.append('<itemDefinition name="tStrings" isCollection="true"><typeRef>string</typeRef></itemDefinition>')
+    parts.append('<itemDefinition name="tRecord"><itemComponent name="amount"><typeRef>number</typeRef></itemComponent><itemComponent name="label"><typeRef>string</typeRef></itemComponent>'
+                 '<itemComponent name="tags"><typeRef>tStrings</typeRef></itemComponent><itemComponent name="day"><typeRef>date</typeRef></itemComponent><itemComponent name="flag"><typeRef>boolean</typeRef></itemComponent></itemDefinition>')
+    inputs += [("xl", "tStrings"), ("xr", "tRecord")]
+    ids.update({"xl": "in_xl", "xr": "in_xr"})
+    parts.append(decision("EchoXL", "xl", ["xl"]))
+    parts.append(decision("EchoXR", "xr", ["xr"]))
+    parts.append(decision("EchoXW", "{list: xl, record: xr, both: [xr, xl]}", ["xl", "xr"]))
     for n, t in inputs:
         parts.append('<inputData name="%s" id="%s"><variable name="%s" typeRef="%s"/></inputData>' % (n, ids[n], n, t))
     xml = wsmodel.tiny_model_xml("nsE", "E", "mE", extra="".join(parts))
@@ -330,6 +339,23 @@ def echo_model(rng, key_cls):
 
 def tck_simple(xsd, text):
     return {"simple": {"type": xsd, "text": text, "isNil": False}}
+
+
+def tck_encode(v):
+    """python value -> TCK input value DTO (the inverse of tck_decode)"""
+    if v is None:
+        return {"simple": {"type": None, "text": None, "isNil": True}}
+    if isinstance(v, bool):
+        return tck_simple("xsd:boolean", "true" if v else "false")
+    if isinstance(v, Decimal):
+        return tck_simple("xsd:decimal", format(v, "f"))
+    if isinstance(v, str):
+        return tck_simple("xsd:string", v)
+    if isinstance(v, tuple):
+        return tck_simple(v[0], v[1])
+    if isinstance(v, list):
+        return {"list": {"items": [tck_encode(x) for x in v], "isNil": False}}
+    return {"components": [{"name": k, "value": tck_encode(x), "isNil": False} for k, x in v.items()]}
 
 
 def tck_decode(v):
@@ -688,6 +714,14 @@ class Session:
             else:
                 cls = ncls
                 scls = rng.choice(BENIGN_STRING_CLASSES)
+        elif pick < 0.94:
+            # structured typed values sent IN as TCK list / components DTOs and echoed
+            xs2 = [gen_string(rng, rng.choice(STRING_CLASSES if rng.random() < 0.5 else BENIGN_STRING_CLASSES)) for _ in range(rng.randint(0, 3))]
+            rec = {"amount": Decimal(gen_number(rng, ncls)), "label": gen_string(rng, scls), "tags": list(xs2), "day": ("xsd:date", rng.choice(["2021-03-04", "1999-12-31", "2020-02-29"])), "flag": rng.random() < 0.5}
+            dec = rng.choice(["EchoXL", "EchoXR", "EchoXW"])
+            want = xs2 if dec == "EchoXL" else rec if dec == "EchoXR" else {"list": xs2, "record": rec, "both": [rec, xs2]}
+            r = rq("POST", "/tck/evaluate", {"model": "E", "invocable": dec, "input": [{"name": "xl", "value": tck_encode(xs2)}, {"name": "xr", "value": tck_encode(rec)}]})
+            return r, "structured-input", want, dec, "tck"
         else:
             t = rng.choice(TEMPORALS)
             dec, cls = t[0], "temporal"
